@@ -54,6 +54,10 @@ CHECKS["C14"] = dict(level="exploration", ref="DESIGN.md §5 C14",
    technique="Hypothesis-generated classes and installed schemas; triples of partials from six origins (parse_obj, JSON, YAML, MetadataLoader harvester, to_partial, FileMetaHarvester); algebraic laws (identity, associativity), operand snapshots, and a reference merge written from the documented rule; conflict-free 'split' generator + independent generator for conflicts",
    text="Generated search checking monoid laws, non-mutation, losslessness and the overwrite/conflict contract against an independent reference merge. Two listed known findings (partial class of example.matsci.info cannot be built; datetime truncated by from_partial) are reported as KNOWN-FINDING; date-times with a time part are excluded from the generators by construction.",
    note=TB + "; values are read from the instances' attribute dicts, the merge rule itself is re-implemented in the harness")
+CHECKS["C13"] = dict(level="exploration", ref="DESIGN.md §5 C13",
+   technique="exhaustive enumeration of (parent type, child type) pairs from a pool of ~80 field types x 6 class-chain shapes x a shared boundary-value corpus, with a one-directional soundness oracle (accepted undeclared override => no child-accepts/parent-rejects witness); generated valid instances of all installed schemas parsed by every ancestor; Extra-policy rule enumerated",
+   text="Exhaustive over the stated pool/shapes/corpus (thorough adds Hypothesis-generated depth-2 types). One-directional by design: a refused safe override is allowed; a witness outside the corpus is missed.",
+   note=TB + "; class chains are built with the real metaclass and checked in the order plugin loading uses")
 NOT_YET = {}
 def main():
     props = [json.loads(l) for l in open(os.path.join(HERE, "properties.jsonl"))]
